@@ -395,6 +395,28 @@ func (x *Exec) specEval(c *SpecCtx, e *Expr) (*Val, error) {
 func (x *Exec) localCell(c *SpecCtx, name string) (*ssa.Alloc, bool) {
 	// choose the declaration visible at the loop header (declared outside the loop, latest before it),
 	// or for non-loop contexts none (params denote entry values).
+	if strings.HasPrefix(name, "rangeindex") && len(name) > len("rangeindex") {
+		// rangeindexN: hidden index of loop N (for invariants of nested loops)
+		var n int
+		if _, err := fmt.Sscanf(name[len("rangeindex"):], "%d", &n); err == nil {
+			for _, li := range x.loops {
+				if li.ord != n {
+					continue
+				}
+				for _, p := range li.header.Preds {
+					if li.blocks[p] {
+						continue
+					}
+					for _, in := range p.Instrs {
+						if a, ok := in.(*ssa.Alloc); ok && a.Comment == "rangeindex" {
+							return a, true
+						}
+					}
+				}
+			}
+		}
+		return nil, false
+	}
 	if (name == "rangeindex" || name == "idx") && c.li != nil {
 		for _, p := range c.li.header.Preds {
 			if c.li.blocks[p] {
@@ -442,7 +464,7 @@ func (x *Exec) specIdent(c *SpecCtx, name string) (*Val, error) {
 		return &Val{K: VScalar, T: &Term{Op: "$nil", S: "Nil"}}, nil
 	}
 	if c.locals {
-		if c.li != nil || c.inBody {
+		if c.li != nil || c.inBody || (strings.HasPrefix(name, "rangeindex") && len(name) > len("rangeindex")) {
 			if a, ok := x.localCell(c, name); ok {
 				v := c.st.cells[a]
 				if v.Typ == nil {
@@ -809,10 +831,21 @@ func (x *Exec) specBinary(c *SpecCtx, e *Expr) (*Val, error) {
 			return nil, fmt.Errorf("ordering on composite values in %q", e.String())
 		}
 		p, q := x.numUnify(a.T, b.T)
-		if p.S == SStr {
-			if !x.strTheory {
-				return nil, fmt.Errorf("string ordering needs `strings theory`")
+		if p.S == SStr && !x.strTheory {
+			x.axiomsOn["strlt"] = true
+			lt := func(a, b *Term) *Term { return x.ufApp("strlt", SBool, a, b) }
+			switch op {
+			case "<":
+				return boolVal(lt(p, q)), nil
+			case "<=":
+				return boolVal(tOr(lt(p, q), tEq(p, q))), nil
+			case ">":
+				return boolVal(lt(q, p)), nil
+			default:
+				return boolVal(tOr(lt(q, p), tEq(p, q))), nil
 			}
+		}
+		if p.S == SStr {
 			sop := map[string]string{"<": "str.<", "<=": "str.<="}[op]
 			if sop == "" {
 				if op == ">" {
